@@ -40,7 +40,10 @@ type thread struct {
 
 // Sched is one execution under control.
 type Sched struct {
-	threads  []*thread
+	tarr     [256]*thread
+	threads  []*thread // tarr[:n]
+	oarr     [256]*thread
+	order    []*thread // oarr[:n]: priority order used when the running thread cannot continue
 	cur      *thread
 	prefix   []int
 	Trail    []int
@@ -95,7 +98,14 @@ type mainBody struct{ fn func() }
 //
 //go:norace
 func Run(prefix []int, maxDev int, keepLog bool, body func()) Result {
-	s := &Sched{prefix: prefix, maxDev: maxDev, fin: make(chan struct{}, 1), ack: make(chan struct{}, 64), maxSteps: 200000, keepLog: keepLog}
+	// no slice of the scheduler ever grows through the runtime (growslice/slicecopy carry race hooks even when
+	// called from //go:norace code): everything is preallocated and moved with plain loops
+	s := &Sched{prefix: prefix, maxDev: maxDev, fin: make(chan struct{}, 1), ack: make(chan struct{}, 64), maxSteps: 60000, keepLog: keepLog}
+	s.Trail = make([]int, 0, 1<<16)
+	s.Arity = make([]int, 0, 1<<16)
+	if keepLog {
+		s.OpLog = make([]string, 0, 1<<16)
+	}
 	active = s
 	t0 := s.newThread()
 	go threadMain(s, t0, body)
@@ -122,8 +132,17 @@ func Run(prefix []int, maxDev int, keepLog bool, body func()) Result {
 
 //go:norace
 func (s *Sched) newThread() *thread {
-	t := &thread{id: len(s.threads), wake: make(chan struct{}, 1)}
-	s.threads = append(s.threads, t)
+	n := len(s.threads)
+	if n >= len(s.tarr) {
+		panic("vsyncrt: too many threads")
+	}
+	t := &thread{id: n, wake: make(chan struct{}, 1)}
+	s.tarr[n] = t
+	s.threads = s.tarr[:n+1]
+	// a new thread gets the lowest priority: by default it is delayed as long as possible (which is what exposes a
+	// parent that forgets to wait for it); one promotion runs it at once
+	s.oarr[n] = t
+	s.order = s.oarr[:n+1]
 	return t
 }
 
@@ -134,7 +153,7 @@ func threadMain(s *Sched, t *thread, fn func()) {
 	raceEnable()
 	if s.aborting {
 		t.done = true
-		raceRelease(unsafe.Pointer(&s.tok))
+		raceReleaseMerge(unsafe.Pointer(&s.tok))
 		raceDisable()
 		s.ack <- struct{}{}
 		raceEnable()
@@ -150,7 +169,7 @@ func threadMain(s *Sched, t *thread, fn func()) {
 func threadEnd(s *Sched, t *thread) {
 	r := recover()
 	t.done = true
-	raceRelease(unsafe.Pointer(&s.tok))
+	raceReleaseMerge(unsafe.Pointer(&s.tok))
 	if _, ok := r.(abortSentinel); ok || (r == nil && s.aborting) {
 		raceDisable()
 		s.ack <- struct{}{}
@@ -243,6 +262,10 @@ func (s *Sched) choose(n int) int {
 	if v != 0 {
 		s.devs++
 	}
+	if len(s.Trail) == cap(s.Trail) {
+		s.StepLimit = true
+		return 0
+	}
 	s.Trail = append(s.Trail, v)
 	s.Arity = append(s.Arity, n)
 	return v
@@ -250,15 +273,23 @@ func (s *Sched) choose(n int) int {
 
 // pick decides which thread runs next (nil: nobody can).
 //
+// Candidates are the running thread (if its operation is enabled) followed by the other enabled threads in
+// priority order (s.order: creation order, demoted threads at the back).
+// Choice 0 is the default: keep running, else the first enabled thread in priority order. A choice k in 1..n-1
+// switches to candidate k and promotes it to the front of the priority order. When the running thread is
+// enabled there is one more alternative, n: demote the running thread to the back of the priority order and
+// run the next candidate - every other thread then gets to run before the demoted one resumes.
+//
 //go:norace
 func (s *Sched) pick() *thread {
 	var en [64]*thread
 	n := 0
-	if s.cur != nil && !s.cur.done && s.cur.pending != nil && s.cur.pending.enabled() {
+	curEnabled := s.cur != nil && !s.cur.done && s.cur.pending != nil && s.cur.pending.enabled()
+	if curEnabled {
 		en[n] = s.cur
 		n++
 	}
-	for _, t := range s.threads {
+	for _, t := range s.order {
 		if t == s.cur || t.done || t.pending == nil {
 			continue
 		}
@@ -270,7 +301,49 @@ func (s *Sched) pick() *thread {
 	if n == 0 {
 		return nil
 	}
-	return en[s.choose(n)]
+	alts := n
+	if curEnabled && n >= 2 {
+		alts = n + 1
+	}
+	k := s.choose(alts)
+	if k == 0 {
+		return en[0]
+	}
+	if k == n { // demotion
+		s.moveTo(s.cur, len(s.order)-1)
+		return en[1]
+	}
+	s.moveTo(en[k], 0)
+	return en[k]
+}
+
+// moveTo places t at index pos of the priority order.
+//
+//go:norace
+func (s *Sched) moveTo(t *thread, pos int) {
+	n := len(s.order)
+	idx := -1
+	for i := 0; i < n; i++ {
+		if s.oarr[i] == t {
+			idx = i
+		}
+	}
+	if idx < 0 {
+		return
+	}
+	if pos >= n {
+		pos = n - 1
+	}
+	if idx < pos {
+		for i := idx; i < pos; i++ {
+			s.oarr[i] = s.oarr[i+1]
+		}
+	} else {
+		for i := idx; i > pos; i-- {
+			s.oarr[i] = s.oarr[i-1]
+		}
+	}
+	s.oarr[pos] = t
 }
 
 // point is the scheduling point before an operation. It returns when the calling thread has been
@@ -284,7 +357,7 @@ func (s *Sched) point(o op) {
 	t := s.cur
 	t.pending = o
 	s.steps++
-	if s.keepLog {
+	if s.keepLog && len(s.OpLog) < cap(s.OpLog) {
 		s.OpLog = append(s.OpLog, fmt.Sprintf("t%d %s", t.id, o.name()))
 	}
 	if s.steps > s.maxSteps {
